@@ -231,6 +231,37 @@ func runC20(s *Sim) {
 	if s.Failed() {
 		return
 	}
+	// One run in twenty-five: many clients at once in front of a stalled store.  The store's node-point consumer is
+	// stalled (fault), a connection pours a few thousand small unacknowledged writes into the bus, the consumer comes
+	// back: the backlog is worked off and the acknowledged write sent behind it is answered.
+	if wl.Chance(1, 25) {
+		fnc, _ := nats.Connect(in.URL(), nats.Name("flood"))
+		s.cleanup = append(s.cleanup, fnc.Close)
+		nFlood := 2100 + wl.Draw(300)
+		base := time.Date(1999, 11, 1, 0, 0, 0, 0, time.UTC).UnixNano()
+		s.W.StallSubs(in.StoreNc, "p.*", true)
+		s.Fault("store consumer stalled behind a flood of writes")
+		s.Call(func() {
+			for i := 0; i < nFlood; i++ {
+				_ = client.SendNodePoints(fnc, root, data.Points{{Type: "f", Time: time.Unix(0, base+int64(i)), Value: float64(i), Origin: "flood"}}, false)
+			}
+		})
+		// the acknowledged write joins the backlog while the consumer is still stalled
+		done := make(chan error, 1)
+		go func() {
+			done <- client.SendNodePoints(fnc, root, data.Points{{Type: "f", Time: time.Unix(0, base+int64(nFlood)), Value: -1, Origin: "flood"}}, true)
+		}()
+		s.Settle()
+		s.W.StallSubs(in.StoreNc, "p.*", false)
+		var ferr error
+		s.Call(func() { ferr = <-done })
+		if ferr != nil {
+			s.Fail("C20", "unanswered", "the acknowledged write behind a backlog of %d unacknowledged ones was not answered: %v", nFlood, ferr)
+			return
+		}
+		s.Settle()
+		tr.Process()
+	}
 	// from here on handlers yield to the scheduler
 	store.VerifYield = b.yield
 	defer func() { store.VerifYield = nil }()
@@ -287,6 +318,10 @@ func runC20(s *Sim) {
 					ret = 1 << 60 // not acknowledged: it may take effect at any later moment, or never
 					if !errors.Is(err, nats.ErrTimeout) && !errors.Is(err, nats.ErrNoResponders) {
 						s.Fail("C20", "write-error", "%s was answered with error %v", name, err)
+					} else if s.DelayPM == 0 {
+						// simulated time only passes when nothing can run, so without injected stalls a request cannot
+						// time out behind a merely slow handler: its message or its reply was lost
+						s.Fail("C20", "unanswered", "%s was never answered (%v) although nothing was stalled", name, err)
 					}
 				}
 				for _, p := range pts {
@@ -303,6 +338,9 @@ func runC20(s *Sim) {
 				ret := stamp.Add(1)
 				if err != nil {
 					if errors.Is(err, nats.ErrTimeout) || errors.Is(err, nats.ErrNoResponders) {
+						if s.DelayPM == 0 {
+							s.Fail("C20", "unanswered", "%s was never answered (%v) although nothing was stalled", name, err)
+						}
 						unanswered++
 						return
 					}
